@@ -9,6 +9,7 @@ import (
 	"time"
 
 	"github.com/openziti/storage/boltz"
+	"go.etcd.io/bbolt"
 	rm "verif/refmodel"
 	"verif/report"
 )
@@ -90,11 +91,9 @@ func boundaryPass(rep *report.Report, prop string, filters, sorts, withObj bool)
 					objs = append(objs, entToObj(e))
 				}
 				label := lb.String()
-				_ = w.db.Update(nil, func(ctx boltz.MutateContext) error {
-					if err := w.materialise(ctx, ds); err != nil {
-						rep.Violation(prop+"|materialise|"+label, err.Error(), nil)
-						return errSkip
-					}
+				label0 := label
+				run := func(tx *bbolt.Tx, mode string) {
+					label := label0 + "[" + mode + "] "
 					for _, q := range queries {
 						var matching []string
 						for _, id := range ids {
@@ -113,7 +112,7 @@ func boundaryPass(rep *report.Report, prop string, filters, sorts, withObj bool)
 						var pan interface{}
 						func() {
 							defer func() { pan = recover() }()
-							bIds, bCount, bErr = w.people.QueryIds(ctx.Tx(), q.text)
+							bIds, bCount, bErr = w.people.QueryIds(tx, q.text)
 						}()
 						if !withObj {
 							if pan != nil || bErr != nil {
@@ -144,8 +143,18 @@ func boundaryPass(rep *report.Report, prop string, filters, sorts, withObj bool)
 							rep.Violation(prop+"|object-store-differs-from-bolt|"+q.text, fmt.Sprintf("ObjectStore.QueryEntities(%q) on %s = %v count=%d; bolt store %v count=%d err=%v panic=%v", q.text, label, got, count, bIds, bCount, bErr, pan), map[string]interface{}{"query": q.text, "dataset": label})
 						}
 					}
+				}
+				_ = w.db.Update(nil, func(ctx boltz.MutateContext) error {
+					if err := w.materialise(ctx, ds); err != nil {
+						rep.Violation(prop+"|materialise|"+label, err.Error(), nil)
+						return errSkip
+					}
+					run(ctx.Tx(), "uncommitted")
 					return errSkip
 				})
+				if err := w.committed(ds, func(tx *bbolt.Tx) { run(tx, "committed") }); err != nil {
+					rep.Violation(prop+"|materialise-committed|"+label, err.Error(), nil)
+				}
 				k := len(idx) - 1
 				for k >= 0 {
 					idx[k]++
